@@ -41,6 +41,7 @@ impl DNSIterable for QuestionIterator<'_> {
 
     fn recompute_sections(&mut self) {
         self.rr_iterator.parsed_packet.recompute().unwrap();
+        self.rr_iterator.parsed_packet.maybe_compressed = false;
     }
 
     #[inline]
